@@ -6,8 +6,8 @@
 
   Core Lean only.  Public keys are abstract: arbiter node keys are natural numbers; for the Schnorr
   path a key `a` stands for the curve point `a·G`, so the aggregate key of a signer list is the
-  *sum* of their numbers (an abelian group; `0` is the point at infinity, which `DecodePoint`
-  rejects).  Program codes arrive parsed (`ParseCrossChainScriptV1`, `IsSchnorr`).
+  *sum* of their numbers (an abelian group; `0` is the empty sum, which the code turns into the
+  curve point with x = 0).  Program codes arrive parsed (`ParseCrossChainScriptV1`, `IsSchnorr`).
 -/
 namespace ElaVerif.Withdraw
 
@@ -122,9 +122,10 @@ def checkSchnorr (l : Ledger) (validate : Bool) (t : Tx) : Option Err :=
   match aggregate l.cross validate t.signers [] 0 with
   | .error e => some e
   | .ok sum =>
-    if sum = 0 then some .badKey
-    else firstErr (fun p => if p.schnorr then (if p.schnorrKey ≠ sum then some .mismatch else none)
-                            else some .notSchnorr) t.progs
+    -- an empty signer list aggregates to the point at infinity; `Marshal`/`DecodePoint` turn it into
+    -- the curve point with x = 0 without an error, so key 0 is just another key here
+    firstErr (fun p => if p.schnorr then (if p.schnorrKey ≠ sum then some .mismatch else none)
+                       else some .notSchnorr) t.progs
 
 /-- the signer-count threshold of V2 for the height -/
 def threshold (c : Cfg) (height : Nat) : Nat :=
